@@ -610,3 +610,131 @@ def gen_cases(rs, tier, routines=None):
 def _rg_canon(v):
     seen = {}
     return [seen.setdefault(x, len(seen)) for x in v]
+
+
+# ------------------------------------------------------------------ the check shared by C02 and C07
+
+def _same_partition(a, b):
+    return len(a) == len(b) and _rg_canon(list(a)) == _rg_canon(list(b))
+
+
+def _cmp_levels(py, model):
+    """py: [(ci, float q)], model: [(ci, Fraction q)] -> 'same' | 'labels' | 'q' | 'count'"""
+    if len(py) != len(model):
+        return 'count'
+    for (c1, q1), (c2, q2) in zip(py, model):
+        if [int(x) for x in c1] != list(c2):
+            return 'labels'
+        if not close(q1, q2):
+            return 'q'
+    return 'same'
+
+
+def run_check(ck, preds):
+    pid = ck.pid
+    ck.cov['rule'] = ('cases = (routine, objective/qtype, integer weight matrix, gamma in {3/4,1,5/4}, start partition, seed): every set partition '
+                      'of n<=5 nodes as the start on random small graphs, random graphs n=4..12 (undirected / directed incl. sparse adversarial / '
+                      'signed incl. all-positive and all-negative, self-loops sometimes) with random starts, given-partition calls of '
+                      'modularity_und/_dir/_und_sign, an asymmetric malformed stream for the _und routines; non-trivial = distinct case in '
+                      'which the routine returned a partition different from its start (optimisers) or a partition with >= 2 modules')
+    ck.assumptions += ['total weight positive (signed routines: at least one nonzero weight; community_louvain negative_*: positive weights present and sum(W) != 0)',
+                       '_und routines are fed symmetric matrices (asymmetric ones only in the malformed stream, no claim)',
+                       'integer weights and dyadic gamma: float gains are exact multiples far from the 1e-10 threshold; comparisons of q use 1e-9',
+                       'calls that hit the watchdog are counted as timeouts, not violations']
+    ok = ck.lean_gate(['BctVerif.Props.' + pid], extra_modules=['BctVerif.Model.Modularity'])
+    if ck.tier == 'thorough' and ok:
+        ck.leanchecker(['BctVerif.Props.' + pid, 'BctVerif.Model.Modularity'])
+    if ck.replay:
+        cases = [json.load(open(ck.replay))['case']['case']]
+    else:
+        cases = gen_cases(ck.rs, ck.tier)
+    results = pmap(run_case, cases)
+    qlines, qidx, rlines, ridx = [], [], [], []
+    for n_, (c, r) in enumerate(zip(cases, results)):
+        rt = c['routine'] + (':' + c['opt'] if c.get('opt') else '')
+        ck.count('routine:' + rt); ck.count('status:' + r['status']); ck.count('n=%d' % len(c['W']))
+        if c.get('malformed'):
+            ck.count('malformed:' + c['malformed'] + ':' + r['status'])
+            continue
+        start = c['ci0'] if c.get('ci0') is not None else list(range(1, len(c['W']) + 1))
+        moved = r['status'] == 'ok' and r['levels'] and (
+            (c['routine'] in GIVEN and len(set(r['levels'][-1][0])) >= 2) or
+            (c['routine'] not in GIVEN and not _same_partition(start, r['levels'][-1][0])))
+        ck.case(sample={'routine': c['routine'], 'opt': c.get('opt'), 'W': c['W'], 'gamma': c['gamma'], 'ci0': c.get('ci0'), 'seed': c['seed'],
+                        'returned': r['levels'][-1] if r['levels'] else None} if moved else None,
+                nontrivial_key=digest([c['routine'], c.get('opt'), c['W'], c['gamma'], c.get('ci0'), r['draws']]) if moved else None)
+        for pred, info, cond in r['fails']:
+            if pred in preds:
+                d = {'case': c}; d.update(info)
+                ck.violation(c['routine'], pred, d, cond)
+        if r['status'] != 'ok' or not r['levels'] and c['routine'] not in HIER:
+            continue
+        failed = {p for p, _, _ in r['fails']}
+        # model: definition + coded closed form for every returned pair that passed the oracle
+        if not failed & {'labels-1..k', 'q-equals-Q', 'given-partition-q'}:
+            for h, (ci, q) in enumerate(r['levels']):
+                qlines.append(q_line(c, c['ci0'] if (c['routine'] in GIVEN and c.get('ci0') is not None) else ci)); qidx.append((n_, h))
+        if c['routine'] in REPLAY_OPS:
+            rlines.append(replay_line(c, r)); ridx.append(n_)
+    if ok:
+        try:
+            outs = run_driver('Modularity', qlines + rlines)
+            qo, ro = outs[:len(qlines)], outs[len(qlines):]
+            nd = 0
+            for (n_, h), o in zip(qidx, qo):
+                c, r = cases[n_], results[n_]
+                ci, q = r['levels'][h]
+                d = kv(o)
+                bad = None
+                if 'qcode' not in d:
+                    bad = 'model error'
+                else:
+                    given = c['routine'] in GIVEN and c.get('ci0') is not None
+                    src = c['ci0'] if given else ci
+                    lab = sorted(set(src)); want = [lab.index(x) + 1 for x in src]
+                    if [int(x) for x in d['relabel'].split(',')] != want or int(d['k']) != len(lab):
+                        bad = 'relabel'
+                    elif not close(q, Fr(d['qcode'])):
+                        bad = 'coded closed form vs reported q'
+                    elif Fr(d['qdef']) != Fr(d['qcode']) and (is_sym(c['W']) or kind_of(c) == 'dir' or c.get('opt') in ('modularity', 'custom')):
+                        bad = 'closed form vs definition'
+                    elif r.get('Qs') and r['Qs'][h] is not None and Fr(r['Qs'][h]) != Fr(d['qdef']) and (is_sym(c['W']) or kind_of(c) == 'dir' or c.get('opt') in ('modularity', 'custom')):
+                        bad = 'model definition vs python oracle'
+                if bad:
+                    nd += 1
+                    if nd <= 5:
+                        ck.corr_break('Modularity model q (%s) vs bct.%s' % (bad, c['routine']), {'case': c, 'level': h, 'model': o[:300], 'impl': [ci, q]})
+            ck.count('corr_q_cases', len(qo)); ck.count('corr_q_disagreements', nd)
+            nr = 0; agree = 0
+            for n_, o in zip(ridx, ro):
+                c, r = cases[n_], results[n_]
+                ml, d = parse_levels(o)
+                if ml is None:
+                    nr += 1
+                    if nr <= 5:
+                        ck.corr_break('Modularity replay vs bct.' + c['routine'], {'case': c, 'model': o[:300], 'impl': r['levels']})
+                    continue
+                if c['routine'] in HIER:
+                    verdict = _cmp_levels(r['levels'], ml[1:])
+                    if verdict == 'same' and r.get('plain') is not None:
+                        verdict = _cmp_levels([r['plain']], [ml[-1]])
+                else:
+                    verdict = _cmp_levels(r['levels'], [ml[-1]])
+                if verdict == 'same' and d.get('left') == '0':
+                    agree += 1
+                    if int(d.get('ties', '0')) > 0:
+                        ck.count('replay_agree_with_exact_ties')
+                    continue
+                if int(d.get('ties', '0')) > 0:
+                    # an exact tie was broken somewhere: floats may legitimately pick another maximiser; compare by value
+                    same_q = r['levels'] and ml and close(r['levels'][-1][1], ml[-1][1])
+                    ck.count('replay_tie_divergence_' + ('same_q' if same_q else 'other_q'))
+                    continue
+                nr += 1
+                if nr <= 5:
+                    ck.corr_break('Modularity replay (%s) vs bct.%s' % (verdict, c['routine']), {'case': c, 'draws': r['draws'], 'model': o[:400], 'impl': r['levels'], 'plain': r.get('plain')})
+            ck.cov['traces_validated_against_impl'] = agree
+            ck.count('corr_replay_cases', len(ro)); ck.count('corr_replay_disagreements', nr)
+        except DriverError as e:
+            ck.corr_break('Modularity driver', str(e))
+    ck.finish()
